@@ -157,4 +157,3 @@ func runC14(res *vh.Result) {
 		}
 	}, nil)
 }
-
